@@ -80,13 +80,17 @@ void setup(vf::Options &o) {
   o.cap[vf::CAS] = atoi(o.get("c", "1").c_str());
   o.table_bits = th ? 25 : 23;
   o.deadline_s = th ? 1200 : 100;
-  int maxcap = th ? 3 : 2, maxP = th ? 3 : 2;
-  for (int cap = 1; cap <= maxcap; ++cap)
-    for (int P = 1; P <= maxP; ++P)
+  // --set=small: capacities 1..2, 1..2 producers (explored to the deepest preemption bound);
+  // --set=big: the configurations with capacity 3 or 3 producers (explored with a smaller bound)
+  std::string set = o.get("set", "small");
+  for (int cap = 1; cap <= 3; ++cap)
+    for (int P = 1; P <= 3; ++P)
       for (int n = 1; n <= 2; ++n)
         for (int cons = 0; cons < 4; ++cons) {
           if (P == 1 && n == 1 && cons > 1) continue;
-          if (th && P == 3 && n == 2 && cap == 3) continue;  // largest corner left to the k-bounded run below
+          bool big = cap == 3 || P == 3;
+          if (big != (set == "big")) continue;
+          if (big && P == 3 && n == 2 && cap == 3) continue;  // largest corner: does not finish at any useful bound
           g_cfgs.push_back({cap, P, n, cons});
         }
   if (!o.get("cfg").empty()) {
